@@ -947,7 +947,10 @@ def find_case(ck, batch, d):
         origin = dt.datetime(rng.choice([1999, 2016, 2020]), rng.randint(1, 12), rng.randint(1, 28), rng.randint(0, 23))
         n = rng.randint(1, 8)
         via = rng.choice(["filename", "handler", "both"])
-        pattern = os.path.join(sub, "{year}", "{sat}_{year}{month}{day}_{hour}{minute}{second}.dat")
+        # compressed files: with info_via handler / both get_info hands a DECOMPRESSED temporary copy to the handler; the
+        # FileInfo that is returned and cached must still carry the real path
+        suffix = rng.choice(["", "", ".gz", ".zip", ".bz2"])
+        pattern = os.path.join(sub, "{year}", "{sat}_{year}{month}{day}_{hour}{minute}{second}.dat" + suffix)
         truth = {}
         t = origin
         probe = FileSet(pattern, name="probe")
@@ -957,15 +960,31 @@ def find_case(ck, batch, d):
             dur = rng.choice([0, 1, 59, 3600])
             fn = probe.get_filename(t, fill={"sat": sat})
             os.makedirs(os.path.dirname(fn), exist_ok=True)
-            with builtins.open(fn, "w") as f:
-                f.write(f"{dur}\n")
+            content = f"{t.isoformat()}\n{dur}\n".encode()
+            if suffix == ".gz":
+                import gzip
+                content = gzip.compress(content)
+            elif suffix == ".bz2":
+                import bz2
+                content = bz2.compress(content)
+            elif suffix == ".zip":
+                import io
+                import zipfile
+                buf = io.BytesIO()
+                with zipfile.ZipFile(buf, "w") as z:
+                    z.writestr(os.path.basename(fn)[:-4], content)
+                content = buf.getvalue()
+            with builtins.open(fn, "wb") as f:
+                f.write(content)
             truth[fn] = (t, dur, sat)
         calls = []
 
         def info_fn(file_info, **kw):
             calls.append(file_info.path)
-            tt, dur, sat = truth[file_info.path]
-            return FileInfo(file_info.path, [tt, tt + dt.timedelta(seconds=dur, microseconds=rng.choice([0, 1]) if False else 0)], {"dur": dur})
+            with builtins.open(file_info.path) as f:          # the (decompressed) content carries start and duration
+                a, b = f.read().split()
+            tt, dur = dt.datetime.fromisoformat(a), int(b)
+            return FileInfo(file_info.path, [tt, tt + dt.timedelta(seconds=dur)], {"dur": dur})
 
         def mk(cache, coverage=None):
             with warnings.catch_warnings(record=True) as w:
@@ -997,6 +1016,12 @@ def find_case(ck, batch, d):
             ck.violation("restart-warning", f"cache warnings during find scenario: {(w1 + w2)[0][:100]}", case)
         if not same_cache(restored, saved):
             ck.violation("restart-cache", f"restart restored {restored[:2]} but {saved[:2]} was saved", case)
+        case["suffix"] = suffix
+        # every FileInfo that is returned or cached carries the path of the real file (never a temporary copy)
+        bad_paths = [x[0] for x in r0 + r1 + r1b + r2 + saved + restored if x[0] not in truth]
+        if bad_paths:
+            ck.violation("cached-path-not-real", f"find()/the cache hold a path that is not one of the fileset's files: {bad_paths[0]} "
+                                                 f"(info_via={via}, suffix '{suffix}')", case)
         if not (r0 == r1 == r1b == r2):
             ck.violation("find-differs-with-cache", f"find() differs: no cache {r0[:3]} / cold {r1[:3]} / warm {r1b[:3]} / restarted {r2[:3]}", case)
         if via != "filename" and len(calls) != ncalls and r2:
